@@ -4,7 +4,7 @@
     check-state contexts (queries, simulations, CheckTx). *)
 From Coq Require Import String List Bool.
 Import ListNotations.
-Require Import Nib.C09.Model Nib.C09.Spec Nib.C09.Sites Nib.C09.Proofs Nib.Gen.C09Facts.
+Require Import Nib.C09.Model Nib.C09.ModelBuf Nib.C09.Spec Nib.C09.Sites Nib.C09.Proofs Nib.C09.ProofsBuf Nib.Gen.C09Facts.
 
 (** Every function of the current tree that reads or writes Keeper.Bank.StateDB is one of the known
     constructor / accessor / mirror functions of x/evm/keeper — in particular no gRPC query
@@ -59,3 +59,27 @@ Theorem C09_no_unreviewed_aliasing :
   forallb inplace_known inplace_sites = true /\ forallb alias_known var_aliases = true.
 Proof. split; vm_compute; reflexivity. Qed.
 Print Assumptions C09_no_unreviewed_aliasing.
+
+(** Shared byte buffers.  Every write through a slice / index expression whose base is a package-level variable (of the
+    same or of another nibiru package, x/evm/embeds included) or a field of a keeper / precompile singleton is an
+    [append] to one of the reviewed slots of Sites.buffer_slots (index writes and [copy] into a shared base have no justification at all); every
+    appended-to slot has a known origin, and every origin is an allocator that returns cap = len, so that the append
+    reallocates instead of writing into the shared backing array: the model selected for the current tree is [Exact].
+    **Breaks** on a new append to a shared slice, and when the way the embedded byte code is materialised changes
+    (e.g. hex decoded in place and re-sliced: spare capacity). *)
+Theorem C09_shared_buffers_justified :
+  forallb buffer_site_known buffer_sites = true /\
+  forallb (site_has_origin slice_origins) buffer_sites = true /\
+  forallb origin_exact slice_origins = true /\
+  alloc_of buffer_sites slice_origins = Exact.
+Proof. repeat split; vm_compute; reflexivity. Qed.
+Print Assumptions C09_shared_buffers_justified.
+
+(** The statement about the code as it is, for the shared buffers: for all scripts of MsgCreateFunToken-like steps
+    (append to the shared byte code, store reads, constructor reading its arguments) of the deliver thread and of any
+    number of request threads, under ALL schedules, the deliver thread deploys what it deploys when running alone.
+    (Type-checks only while [alloc_of …] computes to [Exact]; for a tree with spare capacity it would be the refuted
+    statement [buf_noninterference Spare].) *)
+Theorem C09_current_tree_buffers : buf_noninterference (alloc_of buffer_sites slice_origins).
+Proof. exact buf_noninterference_exact. Qed.
+Print Assumptions C09_current_tree_buffers.
